@@ -41,7 +41,7 @@ PROP = {
             "Frp.C15.manager_close_spec", "Frp.C15.closeHoldsOn_sound", "Frp.C15.model_closeHoldsOn",
             "Frp.C15.notified_eq_stopped", "Frp.C15.session_end_stops_all",
             "Frp.C15.errMsg_ne_nil", "Frp.C15.empty_error_only_from_empty_reason",
-            "Frp.C15.refusal_reported_witness", "Frp.C15.refusal_reported_partial",
+            "Frp.C15.refusal_reported_witness", "Frp.C15.refusal_reported", "Frp.C15.refusal_reported_partial",
         ],
         "engines": [
             {"name": "plugin", "quick_n": 14000, "thorough_n": 150000, "thorough_seeds": 6,
